@@ -231,7 +231,7 @@ def _def_worker(idxs):
         # arguments checked in (D), yields exactly seconds/resolution ticks (rounding-error model, all h:m:s)
         from .envmodels import SymTime
         for idx, f in enumerate(p.fields):
-            if f.type != "TIME":
+            if f.type not in ("TIME", "DURATION"):       # both go through encode_time when the value is given as a `time`
                 continue
             key = ("encode_time", f.len, f.signed, repr(f.flt("Resolution")))
             if key in _G.setdefault("time_done", set()):
@@ -253,18 +253,32 @@ def _def_worker(idxs):
             half = rv(f.res / 2)
             dd = z3.ToReal(kt) * rv(f.res) - z3.ToReal(secs)
             inv = 1 / f.res
+            maxval = ((1 << (f.len - 1)) - 2) if f.signed else ((1 << f.len) - 2)
             if inv.denominator == 1:
                 faithful = kt == secs * int(inv)          # whole number of ticks per second: exact tick count
+                fits = secs * int(inv) <= maxval
             else:
                 faithful = z3.And(dd <= half, -dd <= half)
-            st, mm = prove(z3.And(z3.Not(krc), faithful, kt >= 0, kt < (1 << f.len) - 1), dom + cons, label="encode_time ticks")
+                fits = z3.ToReal(secs) <= rv(f.res * maxval) + half
+            sigtxt = "%d-bit%s x%s" % (f.len, " signed" if f.signed else "", f.res)
+            # (a) a time of day that the field can represent is encoded as seconds/resolution ticks
+            st, mm = prove(z3.Implies(fits, z3.And(z3.Not(krc), faithful, kt >= 0, kt <= maxval)), dom + cons, label="encode_time ticks")
             if st == "sat":
                 hh, mi, se = (mm.eval(x_, True).as_long() for x_ in (hv, mv, sv))
-                rep.violation({"kind": "time-value-path", "sig": "%d-bit x%s" % (f.len, f.res)},
+                rep.violation({"kind": "time-value-path", "sig": sigtxt},
                               "%s.%s: time %02d:%02d:%02d given as a value (no raw value) is not encoded as seconds/resolution ticks" % (p.id, f.id, hh, mi, se),
                               {"kind": "time_value", "def": p.id, "field": f.id, "h": hh, "m": mi, "s": se})
             elif st == "unknown":
                 rep.inconc("%s.%s encode_time kernel undecided" % (p.id, f.id))
+            # (b) a time of day beyond the field's largest tick count is rejected, not wrapped by the caller's mask
+            st, mm = prove(z3.Implies(z3.Not(fits), krc), dom + cons, label="encode_time overflow")
+            if st == "sat":
+                hh, mi, se = (mm.eval(x_, True).as_long() for x_ in (hv, mv, sv))
+                rep.violation({"kind": "time-value-overflow", "sig": sigtxt},
+                              "%s.%s: time %02d:%02d:%02d given as a value needs more than the field's %d ticks and is encoded (wrapped) instead of rejected" % (p.id, f.id, hh, mi, se, maxval),
+                              {"kind": "time_value", "def": p.id, "field": f.id, "h": hh, "m": mi, "s": se, "expect": "reject"})
+            elif st == "unknown":
+                rep.inconc("%s.%s encode_time overflow undecided" % (p.id, f.id))
         # (N) an absent TIME/DURATION value is written as the field's not-available pattern (concrete, per field)
         enc = R.encoder.NMEA2000Encoder()
         for idx, f in enumerate(p.fields):
@@ -294,10 +308,75 @@ def _def_worker(idxs):
             except Exception as e:
                 rep.violation({"kind": "missing-field-wrong-error", "def": p.id, "field": f.id}, "%s: missing %s raises %r, not ValueError" % (p.id, f.id, e),
                               {"kind": "missing_field", "def": p.id, "field": f.id})
+        # (R) what is encoded is the message as it is NOW: after a first encode, a field object is replaced / a new list of
+        # equal length is assigned / one field is removed and another appended - the payload must be that of a fresh message
+        # with the same content (resp. a missing field must be reported)
+        bad_r = reencode_problem(R, dec_fn, base, p)
+        if bad_r:
+            rep.violation({"kind": "stale-after-field-change", "def": p.id}, "%s: %s" % (p.id, bad_r), {"kind": "reencode", "def": p.id})
         if len(rep.samples) < 2:
             rep.sample({"definition": p.id, "fields": len(p.fields), "kernel_calls": len(stubs)})
     return dict(violations=rep.violations, inconclusive=rep.inconclusive, errors=rep.harness_errors, sigs=sigs, nd=nd, nf=nf,
                 samples=rep.samples, stats=explorer.STATS)
+
+
+def reencode_problem(M, dec_fn, base, p):
+    """concrete: encode, change the field list, encode again; compare with a fresh message of the same content"""
+    Field = M.message.NMEA2000Field
+    enc = M.encoder.NMEA2000Encoder()
+
+    def payload(m):
+        try:
+            return bytes(enc._call_encode_function(m))
+        except ValueError as e:
+            return ("ValueError",)
+    nums = [i for i, f in enumerate(p.fields) if f.type == "NUMBER" and f.fixed and f.res is not None and f.len >= 4 and f.match is None]
+    if not nums:
+        return None
+    i = nums[0]
+    f = p.fields[i]
+    sg = Sig(f)
+    lo, hi = sg.raw_range()
+    r0 = (base >> f.off) & ((1 << f.len) - 1)
+    cand = [v for v in (1, 2, 3, 5) if (lo is None or v >= lo) and (hi is None or v <= hi) and v != r0 and v != sg.sentinel]
+    if not cand:
+        return None
+    newval = float(cand[0] * f.res + f.offset) if f.res != 1 else int(cand[0] + f.offset)
+
+    def clone(g, value=None, change=False):
+        return Field(g.id, g.name, g.description, g.unit_of_measurement, newval if change else g.value, None if change else g.raw_value,
+                     g.physical_quantities, g.type, g.part_of_primary_key)
+    # reference: fresh message built with the new value before any encode
+    ref = dec_fn(base)
+    ref.fields[i] = clone(ref.fields[i], change=True)
+    want = payload(ref)
+    if want == ("ValueError",):
+        return None
+    # (i) replace one field object after a first encode
+    m = dec_fn(base)
+    first = payload(m)
+    m.fields[i] = clone(m.fields[i], change=True)
+    got = payload(m)
+    if got != want:
+        return "after replacing field %s by a new object (value %r) the payload is %s, a fresh message with the same content gives %s" % (
+            f.id, newval, got.hex() if isinstance(got, bytes) else got, want.hex())
+    # (ii) assign a new list of the same length
+    m = dec_fn(base)
+    payload(m)
+    m.fields = [clone(g, change=(k == i)) for k, g in enumerate(m.fields)]
+    got = payload(m)
+    if got != want:
+        return "after assigning a new field list (field %s = %r) the payload is %s, a fresh message gives %s" % (f.id, newval, got.hex() if isinstance(got, bytes) else got, want.hex())
+    # (iii) remove one field and append an unrelated one: the missing field must be reported
+    m = dec_fn(base)
+    payload(m)
+    gone = m.fields[i]
+    del m.fields[i]
+    m.fields.append(Field("noSuchField", "x", None, None, 1, 1, None, gone.type, False))
+    got = payload(m)
+    if got != ("ValueError",):
+        return "after removing field %s (and appending an unrelated field) the message is still encoded: %s" % (f.id, got.hex() if isinstance(got, bytes) else got)
+    return None
 
 
 @guarded
@@ -436,7 +515,14 @@ def replay(r):
             back = dec(int.from_bytes(b, "little")).fields[idx].value
         except Exception as e:
             return True, "encodes, but the payload does not decode: %r" % (e,)
-        return back != t, "%s encodes and decodes back as %s" % (t, back)
+        want = r["h"] * 3600 + r["m"] * 60 + r["s"]
+        got = (back.hour * 3600 + back.minute * 60 + back.second) if isinstance(back, datetime.time) else back
+        f_ = p.fields[idx]
+        bad = got is None or abs(float(got) - want) > float(f_.res) / 2 + 1e-9
+        return bad, "%s (%d s) encodes and decodes back as %s" % (t, want, back)
+    if k == "reencode":
+        bad = reencode_problem(N, dec, base, p)
+        return bool(bad), bad or "re-encoding after field changes matches a fresh message"
     if k == "absent":
         idx = [f.id for f in p.fields].index(r["field"])
         f = p.fields[idx]
